@@ -107,7 +107,23 @@ def case_effects(body, keys, case, defs=None):
     """finite case analysis of a merge loop body.  keys: list of (left text, right text) key pairs compared by the body; case: one
     ordering '<' / '=' / '>' per pair.  Evaluates every branch condition built from comparisons of those pairs (&&, ||, !) under the
     case and returns the texts of the expression statements that execute, in order.  Raises NotEvaluable for any other condition."""
-    norm = lambda e: estr(cfront.esubst(e, defs or {})).replace("(int)", "").replace("(unsigned int)", "").replace(" ", "")
+    live = dict(defs or {})       # + temporaries of this iteration (r1 = i1[p1]; ...), dropped when what they read is advanced
+    norm = lambda e: estr(cfront.esubst(e, live)).replace("(int)", "").replace("(unsigned int)", "").replace(" ", "")
+    # names the body only ever assigns with a plain '=' from a side-effect free expression and that are not advanced: temporaries
+    advanced = set()
+    assigned = {}
+    for st_, x_ in cfront.all_exprs(body):
+        if x_.k == "incdec" and x_.a[0].k == "var":
+            advanced.add(x_.a[0].name)
+        if x_.k == "asg" and x_.a[0].k == "var":
+            if x_.op != "=":
+                advanced.add(x_.a[0].name)
+            else:
+                assigned.setdefault(x_.a[0].name, []).append(x_.a[1])
+    temps = set(n_ for n_, rhs in assigned.items() if n_ not in advanced and all(
+        not any(y.k in ("asg", "incdec", "call") for y in ewalk(r_)) for r_ in rhs))
+    import re as _re
+    temps -= set(w for l_, r_ in keys for w in _re.findall(r"[A-Za-z_]\w*", l_ + " " + r_))    # the compared quantities themselves keep their names
     table = {}
     for (l, r), c in zip(keys, case):
         table[(l.replace(" ", ""), r.replace(" ", ""))] = c
@@ -145,7 +161,15 @@ def case_effects(body, keys, case, defs=None):
         elif st.k == "if":
             run(st.then if ev(st.cond) else st.els)
         elif st.k == "expr":
-            out.append(estr_top(st.e).replace(" ", ""))
+            e_ = st.e
+            if e_.k == "asg" and e_.op == "=" and e_.a[0].k == "var" and e_.a[0].name in temps:
+                live[e_.a[0].name] = cfront.esubst(e_.a[1], live)
+                return
+            out.append(estr_top(e_).replace(" ", ""))
+            # a cursor moved: temporaries loaded through it no longer describe the current heads
+            moved = set(x_.a[0].name for x_ in ewalk(e_) if x_.k in ("incdec", "asg") and x_.a[0].k == "var")
+            for n_ in [n_ for n_, rhs in live.items() if n_ in temps and any(y.k == "var" and y.name in moved for y in ewalk(rhs))]:
+                del live[n_]
         elif st.k in ("decl", "null"):
             pass
         else:
@@ -404,6 +428,38 @@ def r3(R):
     R.check(tl == inl and tpos == ipos and ret is not None and ret == Poly.atom(cpos) + 1, "C14.R3", SP, cd.line, "compress_duplicates",
             "last run written: i[c]=ik; j[c]=jk; oi[c]=t; c++",
             "the last (label1,label2) pair or its count is not written, or the returned number of pairs is not the write position + 1: tail stores %s, return %s" % (tl, ret))
+    # every other return: a count that can be positive promises that many (label1, label2, count) triples - the count array (third
+    # argument) must have been written on that path.  'return 0' (constant) promises nothing.
+    oi = cd.params[2].name
+    cfg = cd.cfg
+    oi_stores = [n_ for n_ in cfg.find_nodes(lambda n_: n_.k == "expr" and n_.e is not None and n_.e.k == "asg" and n_.e.a[0].k == "idx"
+                                             and estr(n_.e.a[0].a[0]) == oi)]
+    for rn in cfg.find_nodes(lambda n_: n_.k == "return"):
+        if rn.e is None or (rn.e.k == "int" and rn.e.val == 0):
+            continue
+        doms = set(cfg.dominators(rn.id))
+        if any(n_.id in doms for n_ in oi_stores):
+            continue
+        # can the value be positive under the conditions of the path?  facts: guards as linear facts; the value as a linear form
+        val_ = crules.lin(rn.e)
+        facts = [crules.rel_lin(e_, pol_) for e_, pol_ in cfg.guards(rn.id)]
+        positive_possible = True
+        if val_ is not None and val_.is_const() and val_.const_value() <= 0:
+            positive_possible = False
+        for fct in facts:
+            if fct is None or val_ is None:
+                continue
+            op_, p_ = fct
+            # guard of the form  -value >= 0  or  -value - 1 >= 0 ...: value <= 0 on this path
+            # fact  c - value > 0  (value <= c - 1 for integers)  or  c - value >= 0  (value <= c)
+            if op_ in (">=", ">") and (p_ + val_).is_const():
+                c_ = (p_ + val_).const_value()
+                if (op_ == ">" and c_ <= 1) or (op_ == ">=" and c_ <= 0):
+                    positive_possible = False
+        R.check(not positive_possible, "C14.R3", SP, rn.line, "compress_duplicates", "return %s%s without a store to %s[]" % (
+            estr(rn.e), (" under " + " && ".join(("%s" if pol_ else "!(%s)") % estr(e_) for e_, pol_ in cfg.guards(rn.id))) if cfg.guards(rn.id) else "", oi),
+            "the function returns a positive number of (label1, label2) pairs on a path that never writes their pixel counts into %s: the caller "
+            "reads whatever the count buffer held (the count of the previous call's first pair, or uninitialised memory)" % oi)
 
 
 def _c(t):
@@ -454,11 +510,41 @@ def r4(R, m):
                 "the sibling caller returns early when the two frames share no pixel, this one calls compress_duplicates with empty arrays: f2py "
                 "rejects zero-length arrays (ValueError) instead of reporting an empty overlap list")
     # histogram sizing
+    # histogram sizing: the work array handed to compress_duplicates as 'tmp' (5th argument) has <largest label> + 1 cells.
+    # Role based: the argument is followed to its allocation; 'max(...) + c' / '<n> + c' with a literal c >= 1 is accepted, c < 1
+    # is the violation, any other form is not decided
+
+    def alloc_size(fn, arg, cls_funcs=()):
+        e = pyfacts.resolved(fn, arg, 3)
+        if isinstance(e, ast.Attribute) and src(e.value) == "self":
+            # an attribute: its (single) allocation anywhere in the class
+            cands = [a_.value for f_ in cls_funcs for a_ in ast.walk(f_) if isinstance(a_, ast.Assign) and src(a_.targets[0]) == src(e)]
+            if len(cands) != 1:
+                return None, None
+            e = cands[0]
+        if isinstance(e, ast.Call) and (pyfacts.dotted(e.func) or "").split(".")[-1] in ("empty", "zeros") and e.args:
+            sz = e.args[0]
+            if isinstance(sz, ast.BinOp) and isinstance(sz.op, ast.Add):
+                for x, y in ((sz.left, sz.right), (sz.right, sz.left)):
+                    c = pyfacts.const_int(y)
+                    if c is not None:
+                        return x, c
+            return sz, 0
+        return None, None
     ov = sibs["overlaps"]
-    tmp = [a for a in ast.walk(ov) if isinstance(a, ast.Assign) and src(a.targets[0]) == "tmp"]
-    R.check(len(tmp) == 1 and "max(n1, n2) + 1" in src(tmp[0].value), "C14.R4", SPF, ov.lineno, "overlaps", "tmp sized max(n1, n2) + 1", "histogram is too short for the largest label")
-    rl = m.func("overlaps_linear.realloc")
-    R.check("self.tmp = np.empty(nnzmax + 1, 'i')" in ast.unparse(rl), "C14.R4", SPF, rl.lineno, "overlaps_linear.realloc", "tmp sized nnzmax + 1", "histogram shorter than nnzmax + 1")
+    cd_ov = info["overlaps"]["cd"]
+    R.shape(len(cd_ov.args) >= 5, "C14.R4", SPF, "overlaps", "the five arguments of compress_duplicates")
+    base, c = alloc_size(ov, cd_ov.args[4])
+    R.shape(base is not None and isinstance(base, ast.Call) and src(base.func) in ("max", "np.maximum", "numpy.maximum"), "C14.R4", SPF, "overlaps",
+            "the allocation of the histogram passed to compress_duplicates as max(n1, n2) + c (found %s)" % (src(base) if base is not None else None))
+    R.check(c >= 1, "C14.R4", SPF, cd_ov.lineno, "overlaps", "histogram sized %s + %d" % (src(base), c), "histogram is too short for the largest label")
+    lin = sibs["overlaps_linear.__call__"]
+    cd_l = info["overlaps_linear.__call__"]["cd"]
+    cls_funcs = [f_ for q_, f_ in m.funcs.items() if q_.startswith("overlaps_linear.")]
+    base, c = alloc_size(lin, cd_l.args[4], cls_funcs) if len(cd_l.args) >= 5 else (None, None)
+    R.shape(base is not None, "C14.R4", SPF, "overlaps_linear", "the allocation of the histogram passed to compress_duplicates")
+    R.check(c >= 1 and "nnzmax" in src(base), "C14.R4", SPF, cd_l.lineno, "overlaps_linear", "histogram sized %s + %d" % (src(base), c),
+            "histogram shorter than nnzmax + 1")
     call = sibs["overlaps_linear.__call__"]
     u = ast.unparse(call)
     def max_leaves(n):
